@@ -121,3 +121,75 @@ def replay_item(payload, getters=("short", "long")):
     choices = payload.get("choices") or []
     obs = lprun.run_solver(text, tail, Env(choices), getters=getters)
     return obs
+
+
+LP_ASSUMPTIONS = [
+    "bounded to the listed instance families (<=3 students, <=3 projects, <=3 lecturers, small quotas); every family is enumerated completely",
+    "MILP back end modelled by FakeCBC: exact integer enumeration of the MPS file PuLP wrote, every optimal solution class answered in turn at the last solve; bound to CBC 2.10.3 by the conformance runs (traces_validated_against_impl); solutions within CBC's integrality tolerance but not exactly integral are outside the alphabet",
+    "intermediate solves are not branched: the library reads only the objective variable between solves (certified at run time by the varValue read log; failures are counted and switch the reduction off)",
+    "reference = enumeration of all assignments students -> listed project or none (vf/ref.py), independent of the library",
+]
+
+
+def run_lp_check(pid, level, tier, judge, rule, *, getters=("short", "long"),
+                 conform_rate=None, extra=None, vacuity=None, chunksize=4):
+    """Shared main() of the LP-mode checks."""
+    from . import evidence, pool
+    from .families import lp_items
+    t0 = time.time()
+    seed = evidence.seed()
+    items, desc = lp_items(pid, tier, seed)
+    if conform_rate is None:
+        conform_rate = 97 if tier == "quick" else 41
+    work = make_work(judge, conform_rate=conform_rate, seed=seed,
+                     getters=getters)
+    tally = pool.run(work, items, chunksize=chunksize)
+    c = tally.c
+    coverage = {
+        "states": c.get("executions", 0),
+        "transitions": c.get("answers", 0),
+        "traces_validated_against_impl": c.get("traces_validated", 0),
+        "samples": tally.samples,
+        "exhaustive": not c.get("items_capped") and not c.get("deadline_hit"),
+        "evaluations": c.get("executions", 0),
+        "distinct_nontrivial": c.get("nontrivial", 0),
+        "rule": rule,
+        "instances": c.get("instances", 0),
+        "items_instance_x_options": c.get("items", 0),
+        "max_fanout_optimal_classes": c.get("max_fanout", 0),
+        "read_certificate_failed_items": c.get("read_certificate_failed_items", 0),
+        "conformance_runs_real_cbc": c.get("conformance_runs", 0),
+        "families": desc,
+    }
+    if extra:
+        coverage.update(extra(tally))
+    if vacuity:
+        msg = vacuity(tally)
+        if msg:
+            tally.harness_errors.append("vacuous: " + msg)
+    return evidence.conclude(pid, tier, level, tally, coverage,
+                             LP_ASSUMPTIONS, t0)
+
+
+def reported(e, which="short"):
+    """(matching tuple or None, parsed dict) of an execution."""
+    d = e.short if which == "short" else e.long
+    if d is None or d.get("pulp_status") != "Optimal" or "matching" not in d:
+        return None, d
+    return tuple(d["matching"]), d
+
+
+def generic_replay(path, bad_fn=None):
+    import json
+    with open(path) as f:
+        p = json.load(f)
+    obs = replay_item(p)
+    print("argv:", p["argv"])
+    print(p["file"])
+    print("choices:", p.get("choices"))
+    print("recorded:", p.get("what"))
+    print("exc:", obs["exc"])
+    for name, val in obs["outputs"]:
+        if isinstance(val, str):
+            print("--- %s\n%s" % (name, val))
+    return p, obs
